@@ -184,6 +184,10 @@ class Runner:
             t = self.top(1)
             if not t or not is_proved(t[0]) or not self.room(): raise Skip
             pa = t[0]
+            if not R.well_formed(R.from_repo(pa.conclusion)):
+                # the conclusion would have to be rebuilt as a pattern, but the toolkit's instantiate can leave a redundant
+                # stacked substitution in it (known finding, KNOWN_FINDINGS.txt key checker-rejects:redundant-subst)
+                raise Skip('conclusion-not-well-formed')
             b = gens.build_repo(gens.sugared_from_json(step[1], notations.registry()[1]))
             self._save('w', pa); self._pop(pa)
             inst = self._inst('prop1', [(0, pa.conclusion), (1, b)])
